@@ -29,7 +29,7 @@ A mapping of container types to their monitored container types.
 T = TypeVar("T", bound=Symbol)
 
 
-@dataclass(init=False)
+@dataclass(init=False, eq=False)
 class MonitoredContainer(Generic[T], ABC):
     """
     A container abstract class to be inherited from for specific container types to invoke the on-add
@@ -175,7 +175,7 @@ class MonitoredContainer(Generic[T], ABC):
         ...
 
 
-@dataclass(init=False)
+@dataclass(init=False, eq=False)
 class MonitoredList(MonitoredContainer, list):
     """
     A list that invokes the descriptor on_add for further implicit inferences.
@@ -219,7 +219,7 @@ class MonitoredList(MonitoredContainer, list):
         self.clear()
 
 
-@dataclass(init=False)
+@dataclass(init=False, eq=False)
 class MonitoredSet(MonitoredContainer, set):
     """
     A set that invokes the descriptor on_add for further implicit inferences.
